@@ -881,6 +881,17 @@ func checkC09(c *lib.Ctx) {
 	prng := make([][]c09Req, len(cfgs))
 	var replay []c09Req
 	if c.Replay != "" {
+		var idIn c09IdInput
+		if err := lib.ReadReplay(c.Replay, &idIn); err == nil && idIn.Family == "identity" {
+			root, err := lib.MkScratch("vh-c09-")
+			if err != nil {
+				r.Fail(lib.Failure{Kind: "tie", Key: "tmpdir", What: err.Error()})
+				return
+			}
+			defer os.RemoveAll(root)
+			c09Identity(c, root, &idIn)
+			return
+		}
 		var one c09Req
 		if err := lib.ReadReplay(c.Replay, &one); err != nil {
 			r.Fail(lib.Failure{Kind: "tie", Key: "replay", What: err.Error()})
@@ -1013,6 +1024,18 @@ func checkC09(c *lib.Ctx) {
 			}
 		})
 	}
+
+	// the host-identity family (c09_ident.go) runs in child processes next to the sessions below
+	var idWG sync.WaitGroup
+	if replay == nil {
+		r.Rule += c09IdRule
+		idWG.Add(1)
+		go func() {
+			defer idWG.Done()
+			c09Identity(c, root, nil)
+		}()
+	}
+	defer idWG.Wait()
 
 	outs := make([]*c09Out, len(cfgs))
 	var mu sync.Mutex
